@@ -1,7 +1,7 @@
 (* C07 - property theorems (statements only; the proofs live in Acme.C01.ProofsXxx / Acme.C07.ProofsXxx). *)
 From Coq Require Import ZArith List.
 From Acme.C01 Require Import Layout State Model ProofsLayout ProofsInv ProofsSpec ProofsAccept Refuted ProofsT1 Examples.
-From Acme.C07 Require Import Model Proofs ProofsReg ProofsFinal ProofsEffect ProofsRange.
+From Acme.C07 Require Import Model Proofs ProofsReg ProofsFinal ProofsEffect ProofsRange ProofsNames.
 Import ListNotations.
 Open Scope Z_scope.
 
@@ -228,3 +228,24 @@ Theorem range_in_message : forall ops, ok_hist_f ops -> forall m x, in_tree (run
   0 <= start_bit (run ops) x /\ start_bit (run ops) x + sz (run ops) x <= 8 * gbytes (run ops) m.
 Proof. exact range_reachable. Qed.
 Print Assumptions range_in_message.
+
+(* The name tables are inside an invariant (InvN: the name table of a multiplexer is its member list, the name
+   table of a message names exactly the signals of its registry), preserved by all 29 operations and holding
+   after EVERY history (no hypothesis). With InvM / InvR: SignalNames of a message = the signals of its layout
+   tree, the names a multiplexer holds = the signals whose parent it is. *)
+Theorem names_invariant_step : forall s o, InvN s -> InvN (fst (step s o)).
+Proof. exact invn_step. Qed.
+Print Assumptions names_invariant_step.
+
+Theorem names_invariant_reachable : forall ops, InvN (run ops).
+Proof. exact invn_reachable. Qed.
+Print Assumptions names_invariant_reachable.
+
+Theorem message_names_are_tree : forall s m x, InvA s -> InvM s -> InvR s -> InvN s ->
+  (memb x (gnames s m) = true <-> in_tree s m x).
+Proof. exact names_are_tree. Qed.
+Print Assumptions message_names_are_tree.
+
+Theorem mux_names_are_members : forall s u x, InvM s -> InvN s -> (memb x (unames s u) = true <-> pmux s x = Some u).
+Proof. exact ProofsNames.mux_names_are_members. Qed.
+Print Assumptions mux_names_are_members.
